@@ -282,11 +282,6 @@ def check(scn: Dict[str, Any], hist: Dict[str, Any]) -> List[Dict[str, Any]]:
             for ci in (1, 2, 3):
                 o = allr[ci]
                 if o[0] == "reject" or (o[0] == "accept" and o[1] != info[1]):
-                    # text may legitimately demote bytes whose re-encoding differs (that is C02's subject): only
-                    # a length disagreement or a fetch/IL rejection is judged here
-                    if ci == 1 and o[0] == "reject":
-                        probe("text_demoted")
-                        continue
                     V("consumer_disagree", pos, f"info accepts {hx} at {addr:#x} with length {info[1]}, {names[ci]} says "
                       f"{o[0]} length {o[1]}", which=names[ci], opcode=opc)
             if allr[1][0] == "accept" and allr[3][0] == "accept" and allr[1][2] and allr[3][2] and \
